@@ -66,6 +66,15 @@ def run(ctx: core.Ctx) -> int:
                    construct="writes:" + ";".join(sorted(w.kind + " " + w.target for w in ws)),
                    msg="the update changes filter state it must only read (e.g. the stored noise Q or the inputs, through an alias): "
                        + "; ".join(f"{w.kind} {w.target} (line {w.line}: {w.text[:60]})" for w in ws), line=ws[0].line if ws else None)
+    from . import c13 as _c13
+    for _rid, _t in (("NV-NAMES", "named arrays accept the str() names of their arglist"), ("NV-STORE", "the value given for a name is stored unmodified at its index"),
+                     ("NV-DEFAULT", "zeros / unit variance defaults"), ("NV-GUARD", "unknown names refused"), ("NV-DATA", "_data stored as is"),
+                     ("NV-SHAPE", "shape from the arglist"), ("NV-FROMDICT", "from_dict binds by str(key)"), ("NV-FROMDATA", "from_data refuses wrong shapes"),
+                     ("NV-ITER", "row-order iteration")):
+        ctx.rule(_rid, _t)
+    _c13.check_named(ctx, it.p.modules["common"], "named_covariance", "cov")
+    _c13.check_named(ctx, it.p.modules["common"], "named_vector", "vec")
+    _c13.check_base(ctx, it.p.modules["common"])
     q = sc.Qcls
     okq = isinstance(q, NCls) and q.kind == "cov" and q.layout == R
     ctx.oblige("Q-KIND", f"{file}:ExtendedKalmanFilter._construct_sensors", f"sensor_noises[k] : {q!r}", okq, file=file,
